@@ -177,6 +177,9 @@ def run_case(case):
     argv = list(case['opts']) + ['--'] + [a['spelling'] for a in case['args']]
     sc = inject.Scenario(case, 'put', argv, stdin=b'',
                          plan={'put_clock': '2022-02-02T02:02:02',
+                               # (every third scenario: the clock moves on
+                               # by a second between two readings)
+                               'put_clock_tick': 1 if case['seed'] % 3 == 0 else 0,
                                'random_seed': case['seed']})
     out['features'] += ['where:' + case['where'], 'state:' + case['state'],
                         'nargs:%d' % len(case['args'])] + \
